@@ -28,8 +28,28 @@ THEOREMS = ["Pfl.CFG.isFinite_isSome",
             "Pfl.CFG.genCounters_restores"]
 
 
+def gen_cnf_shaped(rng):
+    """a grammar already in Chomsky normal form, every variable generating, with an unreachable part that may lie on
+    a cycle (finiteness must look at the reachable part only) or a reachable cycle"""
+    vs = ["S", "A", "B", "C"][:rng.randint(2, 4)]
+    prods = [[v, [["t", rng.choice("ab")]]] for v in vs]                       # every variable generating
+    reach = vs[:rng.randint(1, len(vs))]                                       # S reaches only these (acyclic chain)
+    for i, v in enumerate(reach[:-1]):
+        prods.append([v, [["v", reach[i + 1]], ["v", rng.choice(reach[i + 1:])]]])
+    for v in vs:
+        if v not in reach and rng.random() < 0.7:
+            prods.append([v, [["v", rng.choice(vs)], ["v", v]]])                 # a cycle outside the reachable part
+    if rng.random() < 0.25:
+        v = rng.choice(reach)
+        prods.append([v, [["v", v], ["v", rng.choice(reach)]]])                  # sometimes a reachable cycle
+    return {"vars": [], "ters": [], "start": "S", "prods": prods, "as_list": rng.random() < 0.3}
+
+
 def generate(rng, tier):
     while True:
+        if rng.random() < 0.08:
+            yield {"g": gen_cnf_shaped(rng)}
+            continue
         yield {"g": (G.gen_cfg(rng, max_vars=5, max_prods=11) if tier == "thorough" and rng.random() < 0.25 else G.gen_cfg(rng))}
 
 
